@@ -18,6 +18,7 @@ package dstutil
 //@ pure func inList(c *Cursor) bool { c.iter != nil && 0 <= c.iter.index && c.iter.index < rlen(c.parent, c.name) && typeof(c.node) != type(*dst.File) }
 
 //@ func (c *Cursor) Delete
+//@ ensures cursor_fields_kept: c.node == old(c.node) && c.parent == old(c.parent) && c.name == old(c.name) && c.iter == old(c.iter)
 //@ requires in_list: inList(c)
 //@ let i := c.iter.index
 //@ let n := rlen(c.parent, c.name)
@@ -28,6 +29,7 @@ package dstutil
 //@ ensures unvisited_kept: rlen(c.parent, c.name) - (c.iter.index + c.iter.step) == n - (i + old(c.iter.step)) && (forall k int :: 0 <= k && k < n - (i + old(c.iter.step)) ==> rat(c.parent, c.name, c.iter.index + c.iter.step + k) == old(rat(c.parent, c.name, i + c.iter.step + k)))
 
 //@ func (c *Cursor) InsertAfter
+//@ ensures cursor_fields_kept: c.node == old(c.node) && c.parent == old(c.parent) && c.name == old(c.name) && c.iter == old(c.iter)
 //@ requires in_list: inList(c)
 //@ let i := c.iter.index
 //@ let m := rlen(c.parent, c.name)
@@ -39,6 +41,7 @@ package dstutil
 //@ ensures unvisited_kept: rlen(c.parent, c.name) - (c.iter.index + c.iter.step) == m - (i + old(c.iter.step)) && (forall k int :: 0 <= k && k < m - (i + old(c.iter.step)) ==> rat(c.parent, c.name, c.iter.index + c.iter.step + k) == old(rat(c.parent, c.name, i + c.iter.step + k)))
 
 //@ func (c *Cursor) InsertBefore
+//@ ensures cursor_fields_kept: c.node == old(c.node) && c.parent == old(c.parent) && c.name == old(c.name) && c.iter == old(c.iter)
 //@ requires in_list: inList(c)
 //@ let i := c.iter.index
 //@ let m := rlen(c.parent, c.name)
@@ -50,6 +53,7 @@ package dstutil
 //@ ensures unvisited_kept: rlen(c.parent, c.name) - (c.iter.index + c.iter.step) == m - (i + old(c.iter.step)) && (forall k int :: 0 <= k && k < m - (i + old(c.iter.step)) ==> rat(c.parent, c.name, c.iter.index + c.iter.step + k) == old(rat(c.parent, c.name, i + c.iter.step + k)))
 
 //@ func (c *Cursor) Replace
+//@ ensures cursor_fields_kept: c.node == old(c.node) && c.parent == old(c.parent) && c.name == old(c.name) && c.iter == old(c.iter)
 //@ requires not_file: typeof(c.node) != type(*dst.File) && typeof(c.parent) != 0 && ref(c.parent) != 0
 //@ requires in_list_or_field: c.iter == nil || (0 <= c.iter.index && c.iter.index < rlen(c.parent, c.name))
 //@ let m := rlen(c.parent, c.name)
